@@ -189,9 +189,117 @@ def gen_profile():
     return body
 
 
+# ---- milu operator ladder ---------------------------------------------------------------
+
+def coq_str_list(xs):
+    return "[" + "; ".join(coq_string(x) for x in xs) + "]"
+
+
+def gen_ladder():
+    src = strip_comments_keep_strings(open(os.path.join(REPO, "milu/src/parser.rs")).read())
+    src = drop_test_module(src)
+    levels = []
+    for m in re.finditer(r"op_rule!\(\s*(\w+)\s*,\s*(\w+)\s*,(.*?)\);", src, re.S):
+        name, nxt, body = m.group(1), m.group(2), m.group(3)
+        tags = [(t.group(2), bool(t.group(1))) for t in re.finditer(r"tag(_no_case)?\(\s*\"((?:[^\"\\]|\\.)*)\"\s*\)", body)]
+        if not tags:
+            raise SystemExit("translator: op_rule! %s without tags" % name)
+        levels.append((name, nxt, tags))
+    if not levels:
+        raise SystemExit("translator: no op_rule! invocations found in milu/src/parser.rs")
+
+    def arms(fn):
+        m = re.search(r"fn\s+%s\s*\(.*?\{(.*?)\n\}" % fn, src, re.S)
+        if not m:
+            raise SystemExit("translator: fn %s not found" % fn)
+        out = []
+        for a in re.finditer(r'((?:"[^"]*"\s*\|\s*)*"[^"]*")\s*=>\s*\{?\s*(?://[^\n]*\n\s*)*(\w+)::(\w+)', m.group(1)):
+            names = re.findall(r'"([^"]*)"', a.group(1))
+            for n in names:
+                out.append((n, a.group(2) if a.group(2) != "Call" else "Call"))
+        return out
+    p2 = arms("parse2")
+    p1 = arms("parse1")
+    pm = arms("parse_many")
+    m = re.search(r"rule!\(op_7\(i\)\s*->\s*Value,\s*\{(.*?)\}\);", src, re.S)
+    if not m:
+        raise SystemExit("translator: op_7 not found")
+    unary = [t.group(1) for t in re.finditer(r'tag\(\s*"([^"]*)"\s*\)', m.group(1))]
+    m = re.search(r"rule!\(op_0\s*->\s*Value,\s*\{\s*alt\(\((.*?)\)\)", src, re.S)
+    if not m:
+        raise SystemExit("translator: op_0 not found")
+    op0_alts = [x.strip() for x in m.group(1).split(",") if x.strip()]
+    m = re.search(r"terminated\(\s*(\w+)\s*,\s*ws\(tag\(\"\?\"\)\)\)", src)
+    if not m:
+        raise SystemExit("translator: ternary condition rule not found")
+    cond_level = m.group(1)
+    # documented table
+    doc = []
+    for line in open(os.path.join(REPO, "milu/readme.md")).read().splitlines():
+        if not line.startswith("|") or line.startswith("|Prec") or line.startswith("|---"):
+            continue
+        cells = [c.strip() for c in re.split(r"(?<!\\)\|", line)[1:-1]]
+        if len(cells) != 4 or not re.match(r"^[0-9.]+$", cells[0]):
+            continue
+        spell = [x.replace("\\|", "|") for x in re.findall(r"`([^`]*)`", cells[3])]
+        doc.append((cells[0], cells[1].replace("\\|", "|"), cells[2], spell))
+    body = "(* GENERATED by gen/translate.py from milu/src/parser.rs and milu/readme.md.  Do not edit. *)\n"
+    body += "From Coq Require Import String List NArith.\nImport ListNotations.\nFrom RP Require Import MiluSyntax.\nOpen Scope string_scope.\n\n"
+    body += "Definition levels : list level := [\n" + ";\n".join(
+        "  mk_level %s %s [%s]" % (coq_string(n), coq_string(nx), "; ".join("(%s, %s)" % (coq_string(t), "true" if nc else "false") for t, nc in tags))
+        for n, nx, tags in levels) + "\n].\n\n"
+    body += "Definition parse2_table : list (string * string) := [\n" + ";\n".join("  (%s, %s)" % (coq_string(a), coq_string(b)) for a, b in p2) + "\n].\n\n"
+    body += "Definition parse1_table : list (string * string) := [\n" + ";\n".join("  (%s, %s)" % (coq_string(a), coq_string(b)) for a, b in p1) + "\n].\n\n"
+    body += "Definition parse_many_table : list (string * string) := [\n" + ";\n".join("  (%s, %s)" % (coq_string(a), coq_string(b)) for a, b in pm) + "\n].\n\n"
+    body += "Definition unary_tags : list string := %s.\n" % coq_str_list(unary)
+    body += "Definition op0_alternatives : list string := %s.\n" % coq_str_list(op0_alts)
+    body += "Definition ternary_cond_rule : string := %s.\n\n" % coq_string(cond_level)
+    # documented operator tokens: precedence x 10, spelling, associativity
+    dbin, dun = [], []
+    for prec, name, assoc, spell in doc:
+        p10 = int(round(float(prec) * 10))
+        for sp in spell:
+            toks = sp.replace("\u2026", " ").split()
+            raw = sp.strip()
+            if raw.startswith("\u2026") and raw.endswith("\u2026") and len(toks) == 1:
+                dbin.append((p10, toks[0], assoc))
+            elif raw.endswith("\u2026") and not raw.startswith("\u2026") and len(toks) == 1 and p10 < 99:
+                dun.append((p10, toks[0], assoc))
+    body += "Definition doc_binary : list (N * string * string) := [\n" + ";\n".join("  (%d%%N, %s, %s)" % (a, coq_string(b), coq_string(c)) for a, b, c in dbin) + "\n].\n"
+    body += "Definition doc_unary : list (N * string * string) := [\n" + ";\n".join("  (%d%%N, %s, %s)" % (a, coq_string(b), coq_string(c)) for a, b, c in dun) + "\n].\n\n"
+    body += "(* precedence, operator, associativity, documented spellings *)\n"
+    body += "Definition doc_table : list (string * string * string * list string) := [\n" + ";\n".join(
+        "  (%s, %s, %s, %s)" % (coq_string(a), coq_string(b), coq_string(c), coq_str_list(d)) for a, b, c, d in doc) + "\n].\n"
+    return body
+
+
+def strip_comments_keep_strings(src):
+    out = []
+    i, n = 0, len(src)
+    while i < n:
+        if src.startswith("//", i):
+            while i < n and src[i] != "\n":
+                i += 1
+        elif src.startswith("/*", i) and not (i > 0 and src[i - 1] == '"'):
+            j = src.find("*/", i + 2)
+            i = n if j < 0 else j + 2
+        elif src[i] == '"':
+            j = i + 1
+            while j < n and src[j] != '"':
+                if src[j] == "\\":
+                    j += 1
+                j += 1
+            out.append(src[i:j + 1])
+            i = j + 1
+        else:
+            out.append(src[i])
+            i += 1
+    return "".join(out)
+
+
 def main(which=None):
     changed = []
-    gens = {"Gen_panics.v": lambda: gen_panics()[0], "Gen_profile.v": gen_profile}
+    gens = {"Gen_panics.v": lambda: gen_panics()[0], "Gen_profile.v": gen_profile, "Gen_ladder.v": gen_ladder}
     for name, fn in gens.items():
         if which and name not in which:
             continue
